@@ -136,6 +136,7 @@ class Machine:
         s.stack = []
         s.fn_steps = {}
         s.cov = {}
+        s.decimal_literals = False
         # harness interface
         s.obligations = []      # dict(kind,a,b,tag,k,nass,ndiv)
         s.assumptions = []      # Bool terms: vassume + path conditions, in order
@@ -515,6 +516,13 @@ class Machine:
             if isinstance(v, float) and (v != v or v in (math.inf, -math.inf)):
                 # NaN / infinity literals have no real value: a distinguished symbol (only stored and observed, never decided on)
                 return sym('__nan__' if v != v else ('__inf__' if v > 0 else '__neginf__'), 'R')
+            if s.decimal_literals and isinstance(v, float):
+                # job option: a double literal is read as the shortest decimal that round-trips to it (what the programmer
+                # wrote), when that decimal has at most 9 significant digits; otherwise its exact binary value
+                d = repr(v)
+                mant = d.split('e')[0].replace('-', '').replace('.', '').strip('0')
+                if len(mant) <= 9:
+                    return Fraction(d)
             return Fraction(v)
         if k == 'meta':
             return None
